@@ -419,6 +419,14 @@ func main() {
 	}
 	sort.Strings(ns)
 	assumptions = append(assumptions, ns...)
+	if len(finalUsed) > 0 {
+		var fs []string
+		for n := range finalUsed {
+			fs = append(fs, strings.TrimPrefix(n, "H|"))
+		}
+		sort.Strings(fs)
+		assumptions = append(assumptions, fmt.Sprintf("write-once (final) struct fields, by an SSA scan of the defining package that is blind to reflection and unsafe: %s", strings.Join(fs, ", ")))
+	}
 	sort.Strings(underContract)
 	if len(samples) == 0 && len(oblList) > 0 {
 		samples = append(samples, oblList[0])
